@@ -99,6 +99,14 @@ CHECKS['C09'] = ('exploration',
          'Differential oracle (library against library): a defect common to the single- and multi-valued paths is the business of C02/C05/C06. '
          'Layout of array-valued results (rows or columns) is accepted either way.',
          'DESIGN.md 3/C09')
+CHECKS['C11'] = ('exploration',
+         'exhaustive product start x relative rotation ladder x axis x translation pair x s ladder x entry point x shortest, against a reference geodesic',
+         'Every pose pair of the alphabet (relative rotation 1e-12..1e-1, generic, pi-1e-1..pi-1e-6 about four axes, from three start poses; '
+         'translation pairs up to 1e6) through trinterp, trinterp2, slerp, SO2/SE2/SO3/SE3.interp and UnitQuaternion.interp at every s of the '
+         'ladders on 0 and 1, with s slightly outside [0,1], scalar and vector s, shortest on/off: end points, validity, linear translation and '
+         'one fixed arc R0 exp(s phi [u]) for all s.',
+         'Bounded to the enumerated pairs and s values. Without shortest either arc is accepted (consistently over s).',
+         'DESIGN.md 3/C11')
 PENDING = {}
 
 def main():
